@@ -31,6 +31,8 @@ def replay(r):
     shapes = [tuple(s_) for s_ in r["shapes"]]
     Ws = [torch.randn(A * L, int(np.prod(sh)), generator=g, dtype=torch.float64) for sh in shapes]
     args = [torch.randn(B, 2, generator=g, dtype=torch.float64) for _ in range(n_args)]
+    if n_args:
+        args[-1] = torch.arange(B, dtype=torch.int64).reshape(B, 1).repeat(1, 2) * 3 + (1 << 25) + 1      # integer argument, not representable in float32
 
     class M(torch.nn.Module):
         def forward(self, X, *a):
@@ -38,7 +40,9 @@ def replay(r):
             for t, sh in enumerate(shapes):
                 y = torch.tanh(X.reshape(X.shape[0], -1) @ Ws[t])
                 for k, ai in enumerate(a):
-                    y = y + (k + 2) * torch.sin(ai.sum(dim=-1, keepdim=True) + torch.arange(y.shape[1]))
+                    y = y + (k + 2) * torch.sin((ai.sum(dim=-1, keepdim=True) + torch.arange(y.shape[1])).double())
+                    if not ai.is_floating_point():
+                        y = y + (ai[:, :1] % 7).double()
                 outs.append(y.reshape(X.shape[0], *sh))
             return outs[0] if kind == "tensor" else tuple(outs)
     m = M()
@@ -46,6 +50,11 @@ def replay(r):
     W = e - start
     kw = dict(start=start, end=end, batch_size=bs, device="cpu")
     try:
+        if r.get("history"):
+            class Mh(torch.nn.Module):
+                def forward(self, X):
+                    return X.sum(dim=(1, 2))[:, None].repeat(1, 2)
+            saturation_mutagenesis(Mh(), C.real_onehot([[i % (A - 1) for i in range(L)]], A - 1).type(torch.float64), raw_outputs=True, **kw)
         y0, yh = saturation_mutagenesis(m, X, args=tuple(args) if n_args else None, raw_outputs=True, **kw)
     except Exception as ex:
         return True, "raised %s: %s" % (type(ex).__name__, ex)
@@ -77,7 +86,7 @@ def replay(r):
                 d = yh - y0[:, None, None]
                 d = d - d.mean(dim=1, keepdim=True)
                 if isinstance(target, int):
-                    d = d[:, :, :, target:target + 1]
+                    d = d[:, :, :, [target]]
                 elif isinstance(target, list):
                     d = d[:, :, :, target[0]:target[1]]
                 exp = d.reshape(B, A, W, -1).mean(dim=-1)
@@ -100,6 +109,9 @@ def worker(cfg):
         X = C.onehot_from_chars(xc, A, dtype="float32")
         snap = X.a.copy()
         args = [T.Tensor(np.array([[core.Real("a%d_%d" % (k, i))] for i in range(B)], dtype=object), dtype="float32") for k in range(n_args)]
+        if n_args:
+            args[-1].dtype = "int64"          # e.g. integer ids / coordinates: must reach the model as given
+        arg_dtypes = [str(a.dtype) for a in args]
         bs = core.Int("batch_size")
         ctx.assume(bs.z >= 1)
         if window == "default":
@@ -116,6 +128,10 @@ def worker(cfg):
             return dict(cfg, x=C.eval_chars(m, xc), start=core.model_value(m, start), end=core.model_value(m, end), batch_size=core.model_value(m, bs))
         kw = dict(start=start, end=end, batch_size=bs, device="cpu")
         try:
+            if cfg.get("history"):
+                # an earlier call on the same window with a smaller alphabet (results must not depend on the call history)
+                xh = C.sym_chars(ctx, "xh", (1, L), A - 1)
+                ism.saturation_mutagenesis(UFModel(1, "tensor", out_shapes=[(2,)]), C.onehot_from_chars(xh, A - 1, dtype="float32"), raw_outputs=True, **kw)
             y0, yh = ism.saturation_mutagenesis(model, X, args=tuple(args) if n_args else None, raw_outputs=True, **kw)
         except Exception as e:
             if isinstance(e, core.Inconclusive):
@@ -131,6 +147,7 @@ def worker(cfg):
         outs0 = [y0] if kind == "tensor" else list(y0)
         outsh = [yh] if kind == "tensor" else list(yh)
         cl = [len(outs0) == len(outsh)]
+        cl.append(all(sn["arg_dtypes"] == arg_dtypes for sn in model.seen))          # extra arguments reach the model with their own dtype
         for t, (a0, ah) in enumerate(zip(outs0, outsh)):
             shp = shapes[t]
             cl.append(a0.shape == (B,) + shp)
@@ -176,7 +193,7 @@ def worker(cfg):
                         if target is None:
                             cells = list(np.ndindex(*shp))
                         elif isinstance(target, int):
-                            cells = [c_ for c_ in np.ndindex(*shp) if c_[0] == target]
+                            cells = [c_ for c_ in np.ndindex(*shp) if c_[0] == target % shp[0]]          # negative targets index from the end
                         else:
                             cells = [c_ for c_ in np.ndindex(*shp) if target[0] <= c_[0] < target[1]]
                         for n in range(B):
@@ -220,11 +237,13 @@ def configs(tier):
                         targets = []
                     elif n_args == 0:
                         oshapes = [[3]]
-                        targets = [None, 0, 2, [0, 2], [1, 3]] if rich else [1, [1, 3]]   # slices that are strict subsets
+                        targets = [None, 0, 2, -1, [0, 2], [1, 3]] if rich else [1, -2, [1, 3]]   # slices that are strict subsets
                     else:
                         oshapes = [[2, 2]]                                       # extra trailing output dimension
-                        targets = [None, 1, [0, 1]] if rich else [1]
+                        targets = [None, 1, -1, [0, 1]] if rich else [1]
                     cf.append(dict(A=A, B=B, L=L, kind=kind, n_args=n_args, window=window, shapes=oshapes, targets=targets))
+    cf.append(dict(A=3, B=1, L=3, kind="tensor", n_args=0, window="sym", shapes=[[3]], targets=[None], history=True))
+    cf.append(dict(A=3, B=1, L=3, kind="tensor", n_args=0, window="default", shapes=[[3]], targets=[1], history=True))
     return cf
 
 
